@@ -129,7 +129,7 @@ pub struct LatScript {
 impl LatScript {
     pub fn next(&mut self, goal: bool) -> Scripted {
         if goal && self.in_setup {
-            return self.setup_goal.pop_front().unwrap_or(Scripted::Point(self.fallback_g));
+            return self.setup_goal.pop_front().unwrap_or(Scripted::Point(-1));
         }
         if self.cursor < self.iters.len() {
             let e = self.iters[self.cursor].clone();
@@ -137,7 +137,7 @@ impl LatScript {
             if goal { e.1 } else { e.0 }
         } else {
             self.overrun += 1;
-            Scripted::Point(if goal { self.fallback_g } else { self.fallback_u })
+            Scripted::Point(if goal { -1 } else { self.fallback_u })
         }
     }
 }
@@ -221,6 +221,8 @@ impl crate::instr::HGoal<LState> for LatGoal {
     fn sample(&self, rng: &mut dyn rand::RngCore) -> Result<LState, StateSamplingError> {
         let _w = rng.next_u64();
         match self.script.borrow_mut().next(true) {
+            // a negative scripted point means "any goal state": the smallest one of this region
+            Scripted::Point(p) if p < 0 => Ok(LState(*self.set.iter().min().unwrap_or(&0))),
             Scripted::Point(p) => Ok(LState(p)),
             Scripted::Fail => Err(StateSamplingError::GoalRegionUnsatisfiable),
         }
